@@ -1054,15 +1054,23 @@ class Unit:
         self.closure_sigs[disp] = now_params
         base_params = base_closures().get(self.name, {}).get(disp)
         for k, spec in sorted((closures or {}).items()):
+            j = k
             if base_params is not None and k < len(base_params):
-                if k >= len(now_params):
-                    if all(j >= len(now_params) or now_params[j] == base_params[j] for j in (closures or {}) if j < len(base_params)):
-                        self.notes.append('%s: closure #%d of the reference tree no longer exists; its contract is dropped' % (disp, k))
-                        continue
-                elif now_params[k] != base_params[k]:
-                    body.lost.append('closure #%d has another parameter list than on the reference tree (%s vs %s): ordinals may have shifted' % (k, now_params[k], base_params[k]))
+                fp = base_params[k]
+                if k < len(now_params) and now_params[k] == fp:
+                    j = k
+                elif now_params.count(fp) == 1:
+                    j = now_params.index(fp)          # same closure, another ordinal (closures were added / removed before it)
+                    self.notes.append('%s: closure #%d of the reference tree is closure #%d now' % (disp, k, j))
+                elif len(now_params) == len(base_params):
+                    j = k                             # edited in place
+                elif len(now_params) < len(base_params) and all(now_params.count(base_params[i]) == 1 for i in range(len(base_params)) if i != k):
+                    self.notes.append('%s: closure #%d of the reference tree no longer exists; its contract is dropped' % (disp, k))
                     continue
-            _closure_contract(body, k, spec)
+                else:
+                    body.lost.append('closure #%d of the reference tree cannot be located any more (closures were added / removed / edited): its contract is not applied' % k)
+                    continue
+            _closure_contract(body, j, spec)
         for k, spec in sorted((loops or {}).items(), reverse=True):
             body.loop_spec(k, _loop_text(spec), iter_name=(spec.get('iter') if isinstance(spec, dict) else None))
         for h in hints:
@@ -1267,7 +1275,8 @@ def closure_starts(t):
 
 
 def closure_params(t):
-    return [norm_ws(t[a:b + 1]) for a, b in closure_starts(t)]
+    """fingerprint of every closure: its parameter list and the beginning of its body (normalised)"""
+    return [norm_ws(t[a:b + 1]) + ' ' + norm_ws(t[b + 1:b + 61]) for a, b in closure_starts(t)]
 
 
 _BASE_CLOSURES = None
